@@ -36,6 +36,19 @@ claimed["C08"] = ("contract-based deductive verification: frame (modifies) oblig
   "Standing assumption: the evaluated expression contains only operators of tables/readonly_ops.json (the property's hypothesis); the dispatcher contract is trusted and established handler by handler; encodeToString is read-only for YAML (assumed); external libraries do not write yq nodes; Go maps unmodelled.",
   "DESIGN.md §5 C08")
 
+claimed["C02"] = ("contract-based deductive verification: postconditions and frames of the update primitives as VCs from go/ssa, discharged by z3/cvc5",
+  "Node-level update laws proved for all inputs: UpdateFrom is a no-op on self-assignment (get-put), otherwise leaves the target with the source's kind, value and as many fresh child copies (put-get), with the custom-tag / anchor / comment retention rules; UpdateAttributesFrom's attribute table; AddChild/AddKeyValueChild/AddChildren append exactly one/two/n fresh children with Parent set; the relative form |= visits matches back to front (ghost iteration counter) and returns the input context. Partial: path-level laws (prefix compatibility, multi-match, put-put over whole paths) and deep equality of copied subtrees are not decided.",
+  "Trusted: dispatcher contract (GetMatchingNodes), kidsOK data-structure invariant assumed at the copy/add group, append-copies model.",
+  "DESIGN.md §5 C02")
+claimed["C07"] = ("contract-based deductive verification: frame (modifies) clauses and attribute-retention postconditions as VCs from go/ssa, discharged by z3/cvc5",
+  "Every mutating primitive is proved to write only the fields of the node it is given (plus fresh nodes): UpdateFrom, UpdateAttributesFrom, AddChild, AddKeyValueChild, AddChildren, SetParent, deleteFromArray (Content + renumbered Key.Value of survivors), deleteFromMap; UpdateAttributesFrom keeps comments unless the source has one, style unless zero, anchor under DontOverWriteAnchor; the attribute assignment operators (tag, style, comments, anchor, attributes, =, |=) are proved to store only into the named attributes. Partial: which nodes the interpreter hands to the primitives, and the YAML emitter, are not decided.",
+  "Trusted: dispatcher contract; the operators' frames cover their own stores and the primitives they call (nocallframe for the interpreter re-entry).",
+  "DESIGN.md §5 C07")
+claimed["C16"] = ("contract-based deductive verification: postconditions of the key/path primitives as VCs from go/ssa, discharged by z3/cvc5",
+  "getParsedKey returns the node's own text for map keys, nil without a key, the key text for !!str keys and the parsed integer otherwise; GetPath is non-empty for keyed nodes; AddChild gives an unkeyed child the index it is appended at and AddKeyValueChild pairs the value with the fresh key; Copy gives a fresh, unshared key; deleteFromArray renumbers the survivors. Partial: the well-formedness of containers rebuilt by sort/reverse/slice/collect (stale keys, F6) and the step from well-formedness to 'traversing path(n) returns n' are not decided here yet.",
+  "Trusted: decimal printing injective; kidsOK invariant.",
+  "DESIGN.md §5 C16")
+
 not_yet = {}
 
 def main():
